@@ -4,6 +4,7 @@ package main
 // (each is formulated from the code's own structure, not from the seed).
 
 import (
+	"fmt"
 	"go/token"
 	"go/types"
 	"sort"
@@ -1484,5 +1485,97 @@ func rulePendingCount(w *World, r *Report) {
 	}
 	if n == 0 {
 		r.exempt("PENDING-COUNT", "field=sys.CachedLocation.Pending", w.Pos(named.Obj().Pos()), "Pending is never written after construction: not decided by this rule")
+	}
+}
+
+// APPEND-CLOBBER (C11, C16): the slice-insert slip `append(append(s[:i], x), s[i:]...)`.
+func ruleAppendClobber(prop string) ruleFn {
+	return func(w *World, r *Report) {
+		r.Rule("APPEND-CLOBBER", "no append writes into the backing array of a slice whose tail is read afterwards: `append(b[:h], x...)` stores x at b[h...] in place whenever the capacity allows, so a later `b[l:]` of the same base (same SSA value, or loaded from the same field with no store in between) reads what the append just overwrote.  In the in-memory cron's timeline, which all locations share, that drops another location's pending job and fires the inserted one twice (expected matches: none; positive and negative examples in rulint/fixtures/patterns are matched on every run)", 2)
+		match := func(fn *ssa.Function) int { return len(findAppendClobber(fn)) }
+		selfTest(r, "APPEND-CLOBBER", match, []string{"Timeline.AppendClobber"}, []string{"Timeline.AppendInsertOK", "Timeline.AppendInsertOK2", "Timeline.AppendDeleteOK"})
+		scanned, appends := 0, 0
+		for _, fn := range w.Funcs {
+			if isTestFile(w, fn) || fn.Synthetic != "" {
+				continue
+			}
+			scanned++
+			allInstrs(fn, func(in ssa.Instruction) {
+				if _, ok := isBuiltinCall(in, "append"); ok {
+					appends++
+				}
+			})
+			for _, in := range findAppendClobber(fn) {
+				r.violation("APPEND-CLOBBER", "fn="+fname(fn), w.PosOf(in), "this append writes into the backing array of a slice whose tail is read afterwards: the elements from the insertion point on are overwritten before they are copied")
+			}
+		}
+		r.ok("APPEND-CLOBBER", "scope=all rulio functions", "", fmt.Sprintf("%d functions, %d append calls scanned", scanned, appends))
+		r.stat("APPEND-CLOBBER.appends_scanned", appends)
+	}
+}
+
+// LOOP-ALIAS (C04): every result produced by one pass of a loop is its own object.
+func ruleLoopAlias(w *World, r *Report) {
+	r.Rule("LOOP-ALIAS", "in core (query evaluation, event walk, matching) no loop appends to a list an object of reference type (map, slice, heap struct) that was allocated outside the loop and is written inside it: every entry of the list would be the same object, so the n binding sets a condition produces collapse into n copies of the last one and the rule's actions run n times with the same bindings (expected matches: none; examples in rulint/fixtures/patterns are matched on every run)", 2)
+	match := func(fn *ssa.Function) int { return len(findLoopAlias(fn)) }
+	selfTest(r, "LOOP-ALIAS", match, []string{"LoopAlias"}, []string{"LoopAliasOK"})
+	scanned, loops := 0, 0
+	for _, fn := range w.Funcs {
+		if isTestFile(w, fn) || fn.Synthetic != "" || w.RelPkg(fn) != "core" {
+			continue
+		}
+		scanned++
+		loops += len(naturalLoops(fn))
+		for _, in := range findLoopAlias(fn) {
+			r.violation("LOOP-ALIAS", "fn="+fname(fn), w.PosOf(in), "the object appended here is allocated outside the loop and written inside it: all entries of the list alias one object")
+		}
+	}
+	r.ok("LOOP-ALIAS", "scope=core", "", fmt.Sprintf("%d functions, %d loops scanned", scanned, loops))
+}
+
+// LOOP-EXHAUST (C02, C08): the term extractor visits every key / element.
+var loopExhaustTable = []struct{ Rel, Type, Name, Why string }{
+	{"core", "", "extractTermsAux", "the terms of a fact are the union over all its keys and elements: a key that is not visited is not indexed, and the fact is not a candidate for searches (and deleteWith cascades) on that key"},
+	{"core", "", "ExtractTerms", "as above"},
+}
+
+func ruleLoopExhaust(prop string) ruleFn {
+	return func(w *World, r *Report) {
+		r.Rule("LOOP-EXHAUST", "the loops of the term extractor (which feeds the fact index used by search and by the deleteWith cascade) are left only by exhaustion or by an error: no `break` and no success return inside them, so every key and element contributes its terms whatever the map's iteration order (table of functions in the checker; examples in rulint/fixtures/patterns are matched on every run)", 2)
+		match := func(fn *ssa.Function) int {
+			n := 0
+			for _, l := range naturalLoops(fn) {
+				n += len(loopEarlyExits(l))
+			}
+			return n
+		}
+		selfTest(r, "LOOP-EXHAUST", match, []string{"LoopEarlyExit"}, []string{"LoopExhaustOK", "LoopAliasOK"})
+		for _, t := range loopExhaustTable {
+			var fn *ssa.Function
+			if t.Type == "" {
+				fn = w.TryFunc(t.Rel, t.Name)
+			} else {
+				fn = w.TryMethod(t.Rel, t.Type, t.Name)
+			}
+			if fn == nil {
+				r.exempt("LOOP-EXHAUST", "fn="+t.Rel+"."+t.Name, "", "function no longer exists: not decided")
+				continue
+			}
+			withAnon(fn, func(f *ssa.Function) {
+				loops := naturalLoops(f)
+				key := "fn=" + fname(f)
+				bad := false
+				for _, l := range loops {
+					for _, ex := range loopEarlyExits(l) {
+						last := ex.From.Instrs[len(ex.From.Instrs)-1]
+						r.violation("LOOP-EXHAUST", key, w.PosOf(last), "the loop can be left before all keys / elements were visited: "+t.Why)
+						bad = true
+					}
+				}
+				if !bad {
+					r.ok("LOOP-EXHAUST", key, w.Pos(f.Pos()), fmt.Sprintf("%d loops, left only by exhaustion or error", len(loops)))
+				}
+			})
+		}
 	}
 }
